@@ -1072,8 +1072,8 @@ def _lazy_part(rep, tier, wd, J):
     # thread A pre-empted anywhere in its WHOLE operation (the multiplication after the construction: the loop over the table)
     for mode in ("table", "jtable", "ptable", "scale"):
         plan.append(("tiny", mode, "pt", False, True, True, None, "op"))
-    plan += [("nist256p", "table", "pt", False, True, False, 3000 if thorough else 100, "op"),
-             ("nist256p", "jtable", "pt", False, True, False, 3000 if thorough else 100, "op"),
+    plan += [("nist256p", "table", "pt", False, True, False, 3000 if thorough else 60, "op"),
+             ("nist256p", "jtable", "pt", False, True, False, 3000 if thorough else 60, "op"),
              ("ed25519", "table", "pt", False, True, False, 1500 if thorough else 60, "op")]
     plan = [p_ if len(p_) == 8 else p_ + ("fn",) for p_ in plan]
     curves = []
@@ -1094,7 +1094,7 @@ def _lazy_part(rep, tier, wd, J):
         if sample is not None and sample < K:       # the first and the last events (publication) always, the rest sampled
             head, tail = (150, 60) if kind == "pt" else (30, 12)
             if region == "op":
-                head, tail = 80, 350            # the multiplication proper is the tail of the operation
+                head, tail = 80, 220            # the multiplication proper is the tail of the operation
             idxs = sorted(x for x in set(range(0, head)) | set(range(K - tail, K2 + 1)) | set(r.sample(range(K + 1), sample)) if 0 <= x <= K2)
         if kind == "pt":
             idxs.append(END)                        # ... and one run in which A is certainly through
@@ -1223,6 +1223,8 @@ def _lazy_part(rep, tier, wd, J):
         seen.add(k)
         nviol += 1
         fn = "scale" if e["mode"] == "scale" else "_maybe_precompute"
+        if e.get("_region") == "op":
+            fn = "its whole operation on the shared object (the multiplication around %s)" % fn
         if e["op"] == "fail":
             what = "after `generator-without-order * 5` failed (%s) on %s" % (e.get("_a_exc") or "no exception", e["_curve"])
         elif e["op"] == "intr":
